@@ -130,7 +130,7 @@ func forProp(prop string, g func(*bufio.Writer, uint64, string, string)) genFunc
 
 func init() {
 	// C05 (digests are what the specifications prescribe): PE image hash ops, PE checksum ops, APK merkle ops, ECDSA width ops
-	gens["C05"] = []genFunc{forProp("C05", pe.Gen), filtered(c09.Gen, "cksum", "fixpe", "fixpehex", "merkle"), filtered(c19.Gen, "ecdsa", "ecdsasign"), thinned(filtered(c19.Gen, "canon"), 4), forProp("C05", c18.MsiGen), forProp("C05", jar.Gen), forProp("C05", apkb.Gen)}
+	gens["C05"] = []genFunc{forProp("C05", pe.Gen), filtered(c09.Gen, "cksum", "fixpe", "fixpehex", "merkle"), filtered(c19.Gen, "ecdsa", "ecdsasign"), thinned(filtered(c19.Gen, "canon"), 4), forProp("C05", c18.MsiGen), forProp("C05", jar.Gen), forProp("C05", apkb.Gen), forProp("C05", cab.Gen)}
 	gens["C18"] = append(gens["C18"], forProp("C18", c18.MsiGen))
 	for _, p := range []string{"C01", "C02", "C03", "C08", "C11"} {
 		gens[p] = append(gens[p], forProp(p, pe.Gen))
